@@ -239,4 +239,59 @@ theorem paced_run (sr : Msg → Bool) (h : Int) (hh : 1 ≤ h) (a : Int) (c : Co
       have := ih env.now _ u1 (by omega) (by rw [l1]; omega) hid' hp' hrest
       exact ⟨this.1, n1.append this.2⟩
 
+/-- the same in every logged-on state (wide sense): in RESENDREQ_AWAITING / RESENDREQ_HANDLING /
+RECV_SEQNUM_TOO_HIGH … the watchdog never probes and its "message last time" test is the only one that
+can fire, so accepted traffic at least every `2·h·1000` ms keeps the connection too (a replay stream after a
+ResendRequest, for instance); the state may move from RESENDREQ_AWAITING to ACTIVE on the way. -/
+theorem paced_run_on (sr : Msg → Bool) (h : Int) (hh : 1 ≤ h) (a : Int) (c : Conn) (evs : List WEv) (ho : On h c)
+    (ha : 1000 ≤ a) (hal : a ≤ c.lastTime) (hid : c.testReqId = none ∨ ∃ id, id ≠ 0 ∧ c.testReqId = some id)
+    (hp : Paced (h * 2 * 1000) a evs) (hb : BenignRun sr c evs) :
+    On h (run sr c (hist evs)).1 ∧ NoDisc (run sr c (hist evs)).2 := by
+  induction evs generalizing c a with
+  | nil => exact ⟨ho, NoDisc.nil⟩
+  | cons ev rest ih =>
+    obtain ⟨hev, hrest⟩ := hb
+    show On h (run sr c (ev.toEvent :: hist rest)).1 ∧ NoDisc (run sr c (ev.toEvent :: hist rest)).2
+    rw [run_cons]
+    cases ev with
+    | tick env =>
+      obtain ⟨hord, hg, hp'⟩ := hp
+      have hst : step sr c (WEv.tick env).toEvent = tick env c := rfl
+      rw [hst] at hrest ⊢
+      have hb' := ho.hb
+      by_cases hact : c.state = st_ACTIVE
+      · have hu : Up h c := ⟨hact, ho.sock, ho.hb⟩
+        rcases hid with hn | ⟨id, h0, hi⟩
+        · by_cases hidle : (h - 1) * 1000 < env.now - c.lastTime
+          · obtain ⟨u1, t1, n1, _, _, _, l1⟩ := tick_none_idle_ctl env h c hu hh hn hidle
+            have hsec : env.secs ≠ 0 := by unfold Env.secs; omega
+            have := ih a _ u1.on ha (by rcases l1 with l | l <;> rw [l] <;> omega) (Or.inr ⟨_, hsec, t1⟩) hp' hrest
+            exact ⟨this.1, n1.append this.2⟩
+          · have hq := tick_none_quiet env c hu.sock hu.active hn (by rw [hu.hb]; exact hh) (by rw [hu.hb]; omega)
+            rw [hq] at hrest ⊢
+            simpa using ih a c ho ha hal (Or.inl hn) hp' hrest
+        · have hq : tick env c = (c, []) := by
+            rw [tick_outstanding env c id hu.sock hu.active hi h0, if_neg (fun hc => by have := hc.1; omega)]
+          rw [hq] at hrest ⊢
+          simpa using ih a c ho ha hal (Or.inr ⟨id, h0, hi⟩) hp' hrest
+      · have h8 := ho.state
+        have hq : tick env c = (c, []) := by
+          rw [tick_not_active env c ho.sock hact (by show 3 < c.state; omega),
+            if_neg (fun hc => by have := hc.1; omega)]
+        rw [hq] at hrest ⊢
+        simpa using ih a c ho ha hal hid hp' hrest
+    | recv env m =>
+      obtain ⟨hord, hp'⟩ := hp
+      have hbm : Benign c m := hev
+      obtain ⟨o1, l1, t1, n1, _, _⟩ := recv_benign_on sr env h c m ho hbm
+      have hst : step sr c (WEv.recv env m).toEvent = recv sr env c m := rfl
+      rw [hst] at hrest ⊢
+      have hid' : (recv sr env c m).1.testReqId = none ∨ ∃ id, id ≠ 0 ∧ (recv sr env c m).1.testReqId = some id := by
+        rw [t1]
+        split
+        · exact Or.inl rfl
+        · exact hid
+      have := ih env.now _ o1 (by omega) (by rw [l1]; omega) hid' hp' hrest
+      exact ⟨this.1, n1.append this.2⟩
+
 end AsyncFix.Session.Watchdog
